@@ -100,13 +100,46 @@ func c02List(ctx *Ctx, ety cty.Type, ms []cty.Value) {
 			}
 		}
 	}
-	// fractional and wrong-typed keys are rejected
-	for _, k := range []cty.Value{cty.NumberFloatVal(0.5), cty.StringVal("0")} {
-		if p, _ := try(func() { l.Index(k) }); !p {
-			ctx.Fail(Failure{Site: "index", Sig: "index:badkey-accepted", What: "a fractional or wrong-typed list key yielded a value", Input: w + " " + encVal(k), GoLit: l.GoString(), Outcome: "no panic"})
+	c02BadKeys(ctx, l, len(ms), w)
+}
+
+// c02BadKeys: keys that are not whole numbers in [0, n) must be rejected by
+// Index and answered False by HasIndex — fractions on both sides of every
+// boundary (incl. (-1, 0), where truncation toward zero would give index 0),
+// huge magnitudes, infinities, wrong-typed keys.  Each is also a
+// correspondence case.
+func c02BadKeys(ctx *Ctx, l cty.Value, n int, w string) {
+	fn := float64(n)
+	keys := []cty.Value{
+		cty.NumberFloatVal(0.5), cty.NumberFloatVal(-0.5), cty.NumberFloatVal(-0.75), cty.MustParseNumberVal("-1e-30"),
+		cty.MustParseNumberVal("1e-30"), cty.NumberFloatVal(-1.5), cty.NumberFloatVal(fn - 0.5), cty.NumberFloatVal(fn + 0.5),
+		cty.NumberFloatVal(fn - 1 + 0.25), cty.NumberFloatVal(1.5),
+		cty.MustParseNumberVal("18446744073709551616"), cty.MustParseNumberVal("-9223372036854775809"),
+		cty.MustParseNumberVal("9223372036854775808"), cty.MustParseNumberVal("4294967296.5"),
+		cty.PositiveInfinity, cty.NegativeInfinity, cty.NumberIntVal(-1), cty.NumberIntVal(int64(n)),
+		cty.StringVal("0"), cty.True,
+	}
+	for _, k := range keys {
+		wk := encVal(k)
+		whole := false
+		if k.Type() == cty.Number {
+			if i, acc := k.AsBigFloat().Int64(); acc == 0 && i >= 0 && i < int64(n) {
+				whole = true
+			}
 		}
-		if h := l.HasIndex(k); !h.IsKnown() || h.True() {
-			ctx.Fail(Failure{Site: "hasindex", Sig: "hasindex:badkey", What: "HasIndex true for a fractional or wrong-typed key", Input: w + " " + encVal(k), GoLit: l.GoString(), Outcome: h.GoString()})
+		if whole {
+			continue
+		}
+		ctx.Eval("badkey "+w+" "+wk, true)
+		out, _, p := opOut(func() cty.Value { return l.Index(k) })
+		ctx.Add("op.index", out, w, wk)
+		if !p {
+			ctx.Fail(Failure{Site: "index", Sig: "index:badkey-accepted", What: "a fractional, out-of-range or wrong-typed list/tuple key yielded a value", Input: w + " " + wk, GoLit: l.GoString() + ".Index(" + k.GoString() + ")", Outcome: out})
+		}
+		hout, h, hp := opOut(func() cty.Value { return l.HasIndex(k) })
+		ctx.Add("op.hasindex", hout, w, wk)
+		if hp || !h.IsKnown() || h.True() {
+			ctx.Fail(Failure{Site: "hasindex", Sig: "hasindex:badkey", What: "HasIndex is not False for a fractional, out-of-range or wrong-typed key", Input: w + " " + wk, GoLit: l.GoString() + ".HasIndex(" + k.GoString() + ")", Outcome: hout})
 		}
 	}
 }
@@ -212,6 +245,7 @@ func c02Tuple(ctx *Ctx, ms []cty.Value) {
 			expectMember(ctx, "index", got, ms[idx], input, t.GoString())
 		}
 	}
+	c02BadKeys(ctx, t, len(ms), w)
 	if ln := t.Length(); !ln.RawEquals(cty.NumberIntVal(int64(len(ms)))) {
 		ctx.Fail(Failure{Site: "length", Sig: "length:tuple", What: "tuple length differs", Input: w, GoLit: t.GoString(), Outcome: ln.GoString()})
 	}
